@@ -192,6 +192,21 @@ func c02Witnesses(c *oracleCtx) {
 		// restricted production after return
 		{"function f() {\n  return\n  1\n}\n", ""},
 		{"function f(a) {\n  if (a) return\n  a = 2\n}\n", ""},
+		// … whatever the next line starts with (a sign, a bracket, a prefix operator), also behind a comment
+		{"function f(x) {\n  return\n  -x\n}\n", ""},
+		{"function f(x) {\n  return // nothing\n  -x\n}\n", ""},
+		{"function f(x) {\n  return\n  !x\n}\n", ""},
+		{"function f(x) {\n  return\n  (x)\n}\n", ""},
+		{"function f(x) {\n  return\n  [x]\n}\n", ""},
+		{"function f(x) {\n  return\n  ++x\n}\n", ""},
+		{"function f(x) {\n  return\n  --x\n}\n", ""},
+		{"function f(x) {\n  if (x) return\n  -x\n  return x\n}\n", ""},
+		// comments never change the tree, whatever characters they contain (en dash, curly quotes, ellipsis, bullet,
+		// no-break space, line / paragraph separator neighbours U+2027, U+202A)
+		{"let x = 1 // was 0 \u2013 x = 0\nlet y = 2\n", ""},
+		{"a = 1 // it\u2019s \u2026 \u2022 b = 3\nb = 2\n", ""},
+		{"a = 1 // \u2027 c()\nb = 2 // \u202a d()\n", ""},
+		{"a = 1 // caf\u00e9\u00a0\u00e0 e()\nb = 2\n", ""},
 		// line break before ++ / --
 		{"a\n++\nb\n", ""},
 		{"x = y\n--z\n", ""},
